@@ -582,6 +582,11 @@ impl<'p, W, R, T> CompilationScope<'p, W, R, T> {
 
         let mut parent_capture_requests = Vec::new();
         let mut cell_specs = Vec::new();
+        #[cfg(xray_verif)]
+        let verif_before = (
+            verif_cell_log::show_cells(self.cells.iter()),
+            self.parent.map(|p| p.cells.len()),
+        );
         if let Some(parent) = self.parent {
             let mut parent_new_cell_idx = parent.cells.len();
             for cell in self.cells {
@@ -611,6 +616,14 @@ impl<'p, W, R, T> CompilationScope<'p, W, R, T> {
         } else {
             cell_specs.extend(self.cells.into_iter().map(CellSpec::from))
         }
+        #[cfg(xray_verif)]
+        verif_cell_log::record(format!(
+            "{}|{}|{}|{}",
+            verif_before.0,
+            verif_before.1.map_or("-".to_string(), |n| n.to_string()),
+            verif_cell_log::show_specs(cell_specs.iter()),
+            verif_cell_log::show_cells(parent_capture_requests.iter()),
+        ));
         (
             StaticUserFunction {
                 defaults,
@@ -1325,4 +1338,49 @@ pub(crate) enum CompilationItem<W, R, T> {
     /// guaranteed to never be empty
     Overload(Vec<TracedOverload<W, R, T>>),
     Type(Arc<XType>),
+}
+
+/// verification hook: thread-local log of what into_static_ud did with the cells of every closed scope:
+/// "cells of the scope|number of cells of the parent at that moment|resulting cell specs|capture requests handed to the parent"
+/// (V variable or parameter, R recursion cell, C<depth>.<cell> capture)
+#[cfg(xray_verif)]
+pub mod verif_cell_log {
+    use super::{Cell, CellSpec};
+    use std::cell::RefCell;
+    thread_local! {
+        static LOG: RefCell<Option<Vec<String>>> = RefCell::new(None);
+    }
+    pub fn start() {
+        LOG.with(|l| *l.borrow_mut() = Some(Vec::new()));
+    }
+    pub fn take() -> Vec<String> {
+        LOG.with(|l| l.borrow_mut().take().unwrap_or_default())
+    }
+    pub(crate) fn record(line: String) {
+        LOG.with(|l| {
+            if let Some(v) = l.borrow_mut().as_mut() {
+                v.push(line)
+            }
+        });
+    }
+    pub(crate) fn show_cells<'a>(cells: impl Iterator<Item = &'a Cell>) -> String {
+        cells
+            .map(|c| match c {
+                Cell::Recourse => "R".to_string(),
+                Cell::Variable { .. } => "V".to_string(),
+                Cell::Capture { ancestor_depth, cell_idx } => format!("C{}.{}", ancestor_depth.0, cell_idx),
+            })
+            .collect::<Vec<_>>()
+            .join(" ")
+    }
+    pub(crate) fn show_specs<'a>(cells: impl Iterator<Item = &'a CellSpec>) -> String {
+        cells
+            .map(|c| match c {
+                CellSpec::Recourse => "R".to_string(),
+                CellSpec::Variable => "V".to_string(),
+                CellSpec::Capture { ancestor_depth, cell_idx } => format!("C{}.{}", ancestor_depth.0, cell_idx),
+            })
+            .collect::<Vec<_>>()
+            .join(" ")
+    }
 }
